@@ -22,7 +22,7 @@ fn bin_for(config: &str) -> String {
 }
 
 pub const NSHARDS: u64 = 16;
-const WORK_STACK: usize = 8 * 1024 * 1024 + 256 * 1024;
+pub const WORK_STACK: usize = 8 * 1024 * 1024 + 256 * 1024;
 const HANG_CPU_SECONDS: f64 = 60.0;
 
 // ---------------------------------------------------------------- worker side
